@@ -301,6 +301,28 @@ thread_local! {
     /// of user closures (that is, of user-operation graph nodes) still alive
     static CLOSURE_TOKEN: RefCell<Rc<()>> = RefCell::new(Rc::new(()));
 }
+thread_local! {
+    /// when on, every derivative closure keeps a clone of the adjoint it was handed (user code may hold on to it): the
+    /// C08 monitor re-verifies them against the bit-exact copy taken at the call
+    pub static KEPT_DELTAS: RefCell<Option<Vec<(Array, Vec<usize>, Vec<u64>)>>> = RefCell::new(None);
+}
+pub fn kept_deltas_enable(on: bool) {
+    KEPT_DELTAS.with(|k| *k.borrow_mut() = if on { Some(vec![]) } else { None });
+}
+/// (number kept, description of the first one that changed)
+pub fn kept_deltas_verify() -> (usize, Option<String>) {
+    KEPT_DELTAS.with(|k| match k.borrow().as_ref() {
+        None => (0, None),
+        Some(v) => {
+            for (a, d, b) in v {
+                if a.dimensions() != &d[..] || bits(a) != *b {
+                    return (v.len(), Some(format!("an adjoint handed to a derivative closure (dims {:?}) changed after the call: now dims {:?} values {}", d, a.dimensions(), crate::cg::short(&vals(a)))));
+                }
+            }
+            (v.len(), None)
+        }
+    })
+}
 pub fn closure_token_reset() {
     CLOSURE_TOKEN.with(|t| *t.borrow_mut() = Rc::new(()));
 }
@@ -334,6 +356,13 @@ fn custom_op(kind: &OpKind, args: &[&Array], node_id: usize) -> Array {
     });
     let b: BackwardOp = Rc::new(move |c, t, d| {
         let _held = &token;
+        KEPT_DELTAS.with(|k| {
+            if let Some(v) = k.borrow_mut().as_mut() {
+                if v.len() < 64 {
+                    v.push((d.clone(), d.dimensions().to_vec(), bits(d)));
+                }
+            }
+        });
         let trip = INVLOG.with(|l| {
             let mut l = l.borrow_mut();
             let dup = l.entries.iter().any(|e| e.node == node_id);
